@@ -44,3 +44,18 @@ impl SocketAddrV6 {
     pub fn ip(&self) -> (r: &Ipv6Addr) ensures *r == self.ip { &self.ip }
     pub fn port(&self) -> (r: u16) ensures r == self.port { self.port }
 }
+
+#[derive(PartialEq, Eq)]
+pub enum IpAddr { V4(Ipv4Addr), V6(Ipv6Addr) }
+impl SocketAddr {
+    pub fn ip(&self) -> (r: IpAddr)
+        ensures r == (match *self { SocketAddr::V4(a) => IpAddr::V4(a.ip), SocketAddr::V6(a) => IpAddr::V6(a.ip) })
+    {
+        match self { SocketAddr::V4(a) => IpAddr::V4(Ipv4Addr { bits: a.ip.bits }), SocketAddr::V6(a) => IpAddr::V6(Ipv6Addr { octs: a.ip.octs }) }
+    }
+    pub fn port(&self) -> (r: u16)
+        ensures r == (match *self { SocketAddr::V4(a) => a.port, SocketAddr::V6(a) => a.port })
+    {
+        match self { SocketAddr::V4(a) => a.port, SocketAddr::V6(a) => a.port }
+    }
+}
